@@ -52,3 +52,46 @@ P.bound('ledger', 'dyn/C01.py', 'ledger', 'random economies of every catalogue s
         'per-currency identity on the solved series: changes in F of all sectors of a zone + FX position = 0 for k >= 2')
 P.bound('catalogue', 'dyn/C01.py', 'catalogue', 'two fixed topologies outside the random generator (two tax flows in a zone; two dividend payers)',
         'the same identity on the topologies of the known findings F22 and F8')
+
+# ---- TaxFlow._GenerateEquations: every taxable sector of the zone is booked -T, the tax flow collects the terms, the government is credited --------
+from . import C18 as _c18  # noqa  (CurrencyZone.GetSectors / LookupSector, SetEquationRightHandSide)
+from . import C12 as _c12  # noqa  (create_equation_from_terms)
+cls('TaxFlow', fields=dict(TaxingSector=STR, TaxRate=FLOAT))
+
+ZL = 'ZL'
+TAXED = '(ZL[%s].ID != self.ID and ZL[%s].IsTaxable)'
+PRIVATE_T = 'list_same_as(HP, ZL) and list_same_as(HP, terms) and list_same_as(HP, pos_)'
+KEEP_T = '_assume(%r)' % PRIVATE_T
+KEEP_X = '_assume(%r)' % PRIVATE_T.replace('HP', '_loop_exit')
+P.verify(fn(
+    'sfc_models.sector_definitions.TaxFlow._GenerateEquations',
+    args=dict(self=Ref('TaxFlow')),
+    requires=[('zone_objects_exist', 'all(allocated(self.CurrencyZone.CountryList[cc]) and allocated(self.CurrencyZone.CountryList[cc].SectorList) for cc in range(0, len(self.CurrencyZone.CountryList)))')],
+    hints={'strip_rich': True, ('empty_list', 'terms'): STR, ('empty_list', 'pos_'): INT},
+    ghost_after=[('terms = []', 'pos_ = []'),
+                 ("re:s\\.AddCashFlow\\('-T', term, 'Taxes paid\\.', is_income=False\\)",
+                  "_assert(%r, 'taxpayer_is_booked_the_outflow')" % "Den(s.EquationBlock.Equations['F']) == at(HP, Den(s.EquationBlock.Equations['F'])) + V(nospace('-T'))" + '\n' + KEEP_T + '\n_snapshot("HP")'),
+                 ('terms.append(term)', 'pos_[len(pos_) - 1] = len(terms) - 1\n_snapshot("HP")'),
+                 # after the loop: the private lists are as the loop left them (no callee can reach them)
+                 ("re:self\\.SetEquationRightHandSide\\('T', utils\\.create_equation_from_terms\\(terms\\)\\)", KEEP_X),
+                 ("re:tax_fullname = self\\.GetVariableName\\('T'\\)", KEEP_X),
+                 ("re:gov = self\\.CurrencyZone\\.LookupSector\\(self\\.TaxingSector\\)", KEEP_X),
+                 ("re:gov\\.SetEquationRightHandSide\\('T', tax_fullname\\)", KEEP_X),
+                 ("re:gov\\.AddCashFlow\\('T', tax_fullname, 'Tax revenue received\\.'\\)", KEEP_X),
+                 ("re:tax_name_used = s\\.GetVariableName\\('TaxRate'\\)", KEEP_T + '\n_snapshot("HP")'),
+                 ("re:term = '%s \\* %s' % \\(tax_name_used, s\\.GetVariableName\\('INC'\\)\\)", KEEP_T + '\n_snapshot("HP")')],
+    loops={0: LoopSpec(header='for s in self.CurrencyZone.GetSectors()', index='i', ghost={'ZL': '_it'}, body_ghost='pos_.append(0 - 1)\n_snapshot("HP")',
+                       modifies=['len.*', 'el.*', 'dh.*', 'dv.*', 'dk', 'tyof', 'f.Equation.*', 'f.Term.*'], invariants=[
+        ('bounds', '0 <= i and i <= len(ZL)'),
+        ('scratch', 'fresh(ZL) and fresh(terms) and fresh(pos_)'),
+        ('one_record_per_sector_examined', 'len(pos_) == i'),
+        ('zone_objects_exist', 'all(allocated(self.CurrencyZone.CountryList[cc]) and allocated(self.CurrencyZone.CountryList[cc].SectorList) for cc in range(0, len(self.CurrencyZone.CountryList)))'),
+        ('sector_identities_kept', "heap_unchanged_except('tyof', 'len.*', 'el.*', 'dh.*', 'dv.*', 'dk', 'f.Equation.*', 'f.Term.*')"),
+        ('a_term_for_exactly_the_taxable_sectors', 'all(iff(pos_[j] >= 0, %s) and (pos_[j] >= 0 or pos_[j] == 0 - 1) and implies(pos_[j] >= 0, pos_[j] < len(terms)) for j in range(0, i))' % (TAXED % ('j', 'j'))),
+        ('terms_in_list_order', 'all(implies(pos_[j1] >= 0 and pos_[j2] >= 0 and j1 < j2, pos_[j1] < pos_[j2]) for j1 in range(0, i) for j2 in range(0, i))'),
+    ])},
+    ensures=[('every_sector_of_the_zone_list_examined', 'len(pos_) == len(ZL)'),
+             ('a_term_for_exactly_the_taxable_sectors', 'all(iff(pos_[j] >= 0, %s) for j in range(0, len(ZL)))' % (TAXED % ('j', 'j')))],
+    raises=[RaisesSpec('SyntaxError', when='True'), RaisesSpec('LogicError', when='True'), RaisesSpec('NotImplementedError', when='True'),
+            RaisesSpec('ValueError', when='True'), RaisesSpec('IndexError', when='True'), RaisesSpec('KeyError', when='True')],
+))
